@@ -16,6 +16,8 @@ var c10Names = []string{
 	"aa.com", "bb.com", "aa.org", "bb.org",
 	"cc.aa.com", "dd.aa.com", "cc.aa.org", "cc.bb.com",
 	"ee.cc.aa.com", "ee.cc.aa.org",
+	// names whose leftmost label is itself the name of a registered TLD (seeded change C10-6: a TLD test on the wrong label)
+	"org.com", "com.org",
 }
 
 func (e *env) ownerActors() [][]byte {
